@@ -418,4 +418,24 @@ traversal they talk about; the driver checks it on every case) -/
 def coherentB (l : List Entry) : Bool :=
   l.all fun e => l.all fun e' => e.1 != e'.1 || e.2 == e'.2
 
+/-- the insertions the traversal of the client field / pointer `ty.name` performs under its initial
+context (its map is `buildMap` of them) -/
+def fieldEmit (p : Project) (fuel : Nat) (ty name : String) : Option (List Entry) :=
+  match findDecl p ty name with
+  | none => none
+  | some (i, d) =>
+    match d.selections? with
+    | none => none
+    | some sels => some (emitSet p (fieldMap p fuel) ty (initialCtx d.vars) [] (declSels i sels))
+
+/-- `coherentB` for the traversal of every client field and pointer of the project -/
+def projectCoherent (p : Project) : Bool :=
+  p.decls.all fun fd =>
+    match fd.2 with
+    | .entrypoint _ => true
+    | d =>
+      match fieldEmit p (defaultFuel p) d.parent d.name with
+      | some l => coherentB l
+      | none => true
+
 end IsoVerif.Core.Merge
